@@ -365,6 +365,9 @@ func propC15(c *Check) {
 	ruleR15_4(c)
 	ruleR15_5(c)
 	ruleR13_3(c)
+	// a write-back keeps its original (old) version and lands in a newer memtable/level: reads (and
+	// the rewrite's own liveness test) must take the newest version over ALL sources
+	ruleR01_3(c)
 }
 
 // ---- C06 ----
